@@ -129,6 +129,11 @@ def seed_c12_stash_only_unselected():
                     }
                     let selection""")
 
+@mut
+def seed_r2b_size_check():
+    # /tmp/seed-r2b/out/3: abstract_positive_literal only measures subgoals that have no table yet
+    subprocess.run(["git", "-C", WT, "apply", "--include=chalk-engine/src/logic.rs", "/tmp/seed-r2b/out/3/patch.diff"], check=True)
+
 def main():
     name, checks = sys.argv[1], sys.argv[2:]
     subprocess.run(["git", "-C", WT, "checkout", "-q", "."], check=True)
